@@ -30,7 +30,7 @@ def trace_drivers(ctx, drivers, variant='default', pure_drivers=()):
     # size-capped executions are validated again WITHOUT the Java accelerators (pure TLA+ definitions)
     pp = []
     for d in pure_drivers:
-        pp += ctx.run_driver(b, d, shards=1, extra='pure', timeout=300)
+        pp += ctx.run_driver(b, d, shards=8, extra='pure', timeout=300)        # 8 shards: the pure definitions are slow, the files validate in parallel
     if pp:
         before = ctx.trace_stats['accepted_executions']
         ctx.validate(pp, pure=True, timeout=1700)
@@ -57,7 +57,7 @@ def check_C03(ctx):
 # ------------------------------------------------------------------------------------------------ helpers
 def probe(ctx, build):
     from verif import sh
-    rc, out = sh([os.path.join(build, 'verif-probe')], timeout=60)
+    rc, out = sh([ctx.hx(build, 'verif-probe')], timeout=60)
     if rc != 0: raise Machinery('probe failed: ' + out[-500:])
     th = {}
     for l in out.splitlines():
@@ -170,10 +170,13 @@ def check_C02(ctx):
         ctx.model_must_hold(r, what='(schoolbook division loop)')
     r = assume_model(ctx, 'DivRound', {'M': 40 if q else 120, 'Variant': '"ok"'}, timeout=3000)
     ctx.model_must_hold(r, what='(floor/ceiling adjustment of the truncated quotient and remainder; _ui return values)')
+    for W, N, CM in ([(2, 3, 8)] if q else [(2, 3, 8), (2, 4, 10), (3, 3, 11)]):
+        r = assume_model(ctx, 'Div2exp', {'W': W, 'N': N, 'CMAX': CM, 'Variant': '"ok"'}, name=f'Div2exp-W{W}-N{N}', timeout=3000)
+        ctx.model_must_hold(r, what='(limb-level cfdiv_q/tdiv_q/tdiv_r/cfdiv_r _2exp: shift, strip, rounding carry, two\'s complement remainder)')
     trace_drivers(ctx, [('c02_tdiv', 16, 1200), ('c02_div1', 8, 600), ('c02_mpz', 16, 900)], pure_drivers=['c02_tdiv', 'c02_div1', 'c02_mpz'])
     return ctx.finish('model_checking',
         rule='R2: UdivPreinv = every normalised two-limb divisor and every admissible three-limb numerator at word widths 3..5 bits; SbDivQr = every normalised '
-             'divisor and dividend of the stated limb counts at limb base 4/8 through the transcribed loop (special case q=B-1, add-back). R3/R1: tdiv_qr/tdiv_q/sb_div_qr/divrem '
+             'divisor and dividend of the stated limb counts at limb base 4/8 through the transcribed loop (special case q=B-1, add-back); DivRound = the floor/ceiling adjustments for every n,d in range; Div2exp = the _2exp family at limb level (every u of up to N limbs of W bits, every count). R3/R1: tdiv_qr/tdiv_q/sb_div_qr/divrem '
              'at divisor sizes on both sides of every division crossover x quotient lengths (0,1,2,dn/2,dn-1,dn,dn+1,2dn+1,5dn) x contents (inverse construction with all-ones '
              'quotient and maximal remainder, dividend prefix equal to divisor, d1=B/2, corners, unnormalised divisors); single-limb divisor classes; every mpz division, '
              'divisibility and congruence function x four sign combinations x exact/maximal-remainder/random, d=0 where defined; each call validated by TLC. '
@@ -230,7 +233,7 @@ def check_C04(ctx):
     paths = ctx.run_driver(b, 'hist', shards=16, timeout=1200)
     paths += ctx.run_driver(b, 'alias', shards=16, timeout=1200)
     # rationals, floats, random states, strings and streams (valid and invalid input) under the same heap accounting
-    for d, shards in [('c12', 4), ('c13', 4), ('c19_hist', 4), ('c06_misc', 2), ('c06_mpz', 4), ('c17_stream', 8), ('c18_misc', 2)]:
+    for d, shards in [('c04_limbs', 8), ('c12', 4), ('c13', 4), ('c13s', 4), ('c19_hist', 4), ('c06_misc', 2), ('c06_mpz', 4), ('c17_stream', 8), ('c18_misc', 2)]:
         paths += ctx.run_driver(b, d, shards=shards, timeout=900, tier='quick')
     ctx.validate(paths)
     if not q:
@@ -238,8 +241,8 @@ def check_C04(ctx):
         from verif import sh
         ba = ctx.build('asan')
         reports = 0
-        for d in ('hist', 'alias', 'c17_stream', 'c06_mpz', 'c13'):
-            rc, out = sh([os.path.join(ba, 'verif-hx'), d, 'quick', str(ctx.seed), os.path.join(ctx.scratch, f'asan-{d}.ndjson'), '0/4'], timeout=1500,
+        for d in ('hist', 'alias', 'c17_stream', 'c06_mpz', 'c13', 'c13s', 'c04_limbs', 'c18_misc'):
+            rc, out = sh([ctx.hx(ba), d, 'quick', str(ctx.seed), os.path.join(ctx.scratch, f'asan-{d}.ndjson'), '0/4'], timeout=1500,
                          env={'ASAN_OPTIONS': 'detect_leaks=0:abort_on_error=0:halt_on_error=1'})
             if 'ERROR: AddressSanitizer' in out:
                 reports += 1; rp = ctx.save_replay(f'asan-{d}.txt', out[-30000:]); ctx.violation('C04', f'AddressSanitizer report in driver {d}', rp)
@@ -248,7 +251,7 @@ def check_C04(ctx):
     ctx.validate(pp, pure=True)
     return ctx.finish('model_checking',
         rule='R2: block-store models (MpzAors, MpzLogic): every access through a live block of sufficient size, frees with the allocated size, no orphan. R3/R1: seeded random '
-             'histories of public calls over a pool of variables with mpz_realloc2 (shrink to the minimum / grow), clear+init, swap between calls and the alias sweep; the recording '
+             'histories of public calls over a pool of variables with mpz_realloc2 (shrink to the minimum / grow), clear+init, swap between calls and the alias sweep; the limb-level protocols (mpz_limbs_write/modify/finish/read, mpz_roinit_n, mpz_getlimbn, _mpz_realloc, the NULL-terminated inits/clears lists) interleaved with arithmetic; the recording '
              'allocator installed with mp_set_memory_functions logs every alloc/realloc/free with the size the library passed, and MPIR.tla accepts a free/realloc only with the exact '
              'current size, requires every touched object to be well formed and to own a block of exactly its allocation, no temporary to survive a call, nothing live after all '
              'clears, canaries intact, and every value equal to the result computed from the abstract value (so allocation history cannot matter). '
@@ -323,9 +326,11 @@ def check_C12(ctx):
     q = ctx.tier == 'quick'
     r = ctx.tlc_model('MpqOps', cfg_text=cfg(consts={'K': 7 if q else 11, 'Variant': '"ok"'}), name='MpqOps', timeout=3000)
     ctx.model_must_hold(r, what='(mpq_mul / mpq_add / mpq_sub store sequences under every alias pattern: exact and canonical)')
+    r = assume_model(ctx, 'Mpq2exp', {'W': 2, 'L': 4 if q else 5, 'NUMMAX': 9 if q else 15, 'NMAX': 9 if q else 13, 'Variant': '"ok"'}, timeout=3000)
+    ctx.model_must_hold(r, what='(mpq_mul_2exp / mpq_div_2exp at limb level over one memory: skipped zero limbs, copy direction in place, shift, leftover count)')
     trace_drivers(ctx, [('c12', 16, 1500), ('alias_qf', 4, 900)], pure_drivers=['c12'])
     return ctx.finish('model_checking',
-        rule='R2: MpqOps = all canonical operand pairs with |num|,den<=K x all 27 identity triples x {mul,add,sub} through the transcribed store sequences. R3/R1: add/sub/mul/div/inv/neg/abs/'
+        rule='R2: MpqOps = all canonical operand pairs with |num|,den<=K x all 27 identity triples x {mul,add,sub} through the transcribed store sequences; Mpq2exp = mord_2exp at limb level over one memory (every canonical operand of up to L limbs, every count, separate and in-place destination). R3/R1: add/sub/mul/div/inv/neg/abs/'
              'mul_2exp/div_2exp/cmp*/equal/set_*/canonicalize/get_d on operands of 0..200 limbs built with prescribed common factors between the cross terms (each gcd branch), equal '
              'denominators, integers, zero, powers of two, equal operands, all signs, every alias pattern; MPIR.tla requires the exact value AND canonical form. '
              'distinct = distinct calls; non-trivial = at least two limbs',
@@ -337,12 +342,14 @@ def check_C13(ctx):
     q = ctx.tier == 'quick'
     r = assume_model(ctx, 'MpfContract', {'P': 6 if q else 8}, timeout=3000)
     ctx.model_must_hold(r, what='(float accuracy/exactness predicates of SemF vs brute force on small dyadics)')
-    trace_drivers(ctx, [('c13', 16, 1500), ('alias_qf', 4, 900)], pure_drivers=['c13'])
+    trace_drivers(ctx, [('c13', 16, 1500), ('c13s', 16, 1500), ('alias_qf', 4, 900)], pure_drivers=['c13', 'c13s'])
     return ctx.finish('model_checking',
         rule='R2: MpfContract checks the accuracy/exactness predicates the trace specification applies (Close, AccurateQuot, AccurateSqrt, CopyOf) against brute-force rational '
              'arithmetic on all small dyadics. R3/R1: add/sub/mul/div/sqrt and _ui forms, set_q/set_z/set_d, exact functions, comparisons and conversions for destination and operand precisions '
              'chosen independently from {2,3,4,5,7,50} limbs, every exponent difference from no overlap to full overlap, low zero limbs, nearly cancelling operands, aliasing, '
-             'set_prec/set_prec_raw/swap histories; MPIR.tla evaluates the property\'s inequality exactly on dyadic rationals and the mpf format rules after every call. '
+             'set_prec/set_prec_raw/swap histories; mpf_set_str / mpf_init_set_str on generated strings of the documented grammar in 16 bases (digit counts below, at and far above what the precision holds, '
+             'point and exponent forms, rejected strings) and mpf_get_str for every class of requested digit count (SemF!ParseFlt, GetStrOK: exact rational comparison); pow_ui, cmp_z, eq, reldiff, rrandomb; '
+             'MPIR.tla evaluates the property\'s inequality exactly on dyadic rationals and the mpf format rules after every call. '
              'distinct = distinct calls; non-trivial = at least two limbs',
         explanation='exact dyadic evaluation of the accuracy bound on traces of the real library')
 
@@ -531,38 +538,50 @@ def check_C14(ctx):
     r = ctx.tlc_model('FatInit', cfg_text=cfg(spec='Spec', consts={'Threads': '{1, 2}' if q else '{1, 2, 3}', 'NF': 2, 'NT': 2, 'Ops': 2, 'Variant': '"ok"'},
                       inv=('AlwaysDecided', 'SlotsSane', 'FinalVector', 'FlagImpliesInstalled')), name='FatInit', timeout=3000)
     ctx.model_must_hold(r, what='(lazy initialisation of the fat dispatch vector under every interleaving)')
-    variants = ['default'] + OPTION_VARIANTS + ['cpu-' + c for c in (rng.sample(CPU_VARIANTS, 3) if q else CPU_VARIANTS)]
-    # build the variants, 6 at a time (each scratch build is a separate directory keyed by the hash of /repo's tree)
-    builds = {}
-    def bld(v):
-        try: return v, ctx.build(v), None
-        except Machinery as e: return v, None, str(e)
-    with cf.ThreadPoolExecutor(max_workers=4) as ex:
-        for v, b, err in ex.map(bld, variants):
-            if err: raise Machinery(err)
-            builds[v] = b
-    pairs = set(); not_exec = []; thr_checked = 0
-    for v in variants:
-        b = builds[v]
+    # quick: the three kernel sets that differ most (this host's assembly, pure C, the fat binary's run-time dispatch) and one seeded CPU directory;
+    # thorough: every configure option variant and every x86-64 CPU directory of configure.ac
+    variants = ['default', 'none', 'fat'] + ['cpu-' + c for c in rng.sample(CPU_VARIANTS, 1)] if q else \
+               ['default'] + OPTION_VARIANTS + ['cpu-' + c for c in CPU_VARIANTS]
+    battery = [(d, 1 if q else n) for d, n in BATTERY if not q or d not in ('c01_mpz', 'c02_mpz', 'c07_mpz', 'c08_powm')]
+    builds = {}; pairs = set(); not_exec = []; thr_seen = {}; all_paths = []
+    import threading; lock = threading.Lock()
+    def one(v):
+        """build one variant, then probe it, model-check its threshold vector and run the battery (traces validated together below)"""
+        b = ctx.build(v)
+        with lock: builds[v] = b
         # can the host execute this variant's kernels?  (a SIGILL probe, reported as not executable, never as a failure)
-        rc, out = sh([os.path.join(b, 'verif-hx'), 'smoke', 'quick', '1', os.path.join(ctx.scratch, f'smoke-{v}.ndjson')], timeout=120)
-        if rc != 0 or '"e":"crash","sig":4' in open(os.path.join(ctx.scratch, f'smoke-{v}.ndjson')).read():
-            not_exec.append(v); continue
+        sm = os.path.join(ctx.scratch, f'smoke-{v}.ndjson')
+        rc, out = sh([ctx.hx(b), 'smoke', 'quick', '1', sm], timeout=120)
+        if rc != 0 or '"e":"crash","sig":4' in open(sm).read():
+            with lock: not_exec.append(v)
+            return
         kern = linked_kernels(b)
-        for rname, path in kern.items(): pairs.add((v, path))
-        # the dispatch / parameter models with THIS variant's threshold vector
-        th = probe(ctx, b)
-        N = 500 if q else 900
-        rm = ctx.tlc_model('MulDispatch', cfg_text=cfg(consts=mul_consts(th, N=N)), name=f'MulDispatch-{v}')
-        ctx.model_must_hold(rm, what=f'(variant {v}: callee preconditions under its gmp-mparam.h)')
-        rf = ctx.tlc_model('FFTParams', cfg_text=cfg(consts=fft_consts(th, N1HI=th['MUL_FFT_FULL_THRESHOLD'] + (300 if q else 1500))), name=f'FFTParams-{v}')
-        ctx.model_must_hold(rf, what=f'(variant {v}: FFT parameter selection under its FFT_TAB)')
-        thr_checked += 1
+        with lock:
+            for rname, path in kern.items(): pairs.add((v, path))
+        # the dispatch / parameter models with THIS variant's threshold vector (once per distinct vector)
+        th = probe(ctx, b); key = tuple(sorted(th.items()))
+        with lock:
+            first = key not in thr_seen
+            if first: thr_seen[key] = v
+        if first:
+            N = 500 if q else 900
+            rm = ctx.tlc_model('MulDispatch', cfg_text=cfg(consts=mul_consts(th, N=N)), name=f'MulDispatch-{v}', workers=4)
+            ctx.model_must_hold(rm, what=f'(variant {v}: callee preconditions under its gmp-mparam.h)')
+            rf = ctx.tlc_model('FFTParams', cfg_text=cfg(consts=fft_consts(th, N1HI=th['MUL_FFT_FULL_THRESHOLD'] + (300 if q else 1500))), name=f'FFTParams-{v}', workers=4)
+            ctx.model_must_hold(rf, what=f'(variant {v}: FFT parameter selection under its FFT_TAB)')
         # the battery, validated against the SAME specification
         paths = []
-        for d, shards in BATTERY:
+        for d, shards in battery:
             paths += ctx.run_driver(b, d, shards=shards, timeout=900, tier='quick')
-        ctx.validate(paths)
+        with lock: all_paths.extend(paths)
+    errs = []
+    def guarded(v):
+        try: one(v)
+        except Machinery as e: errs.append(f'{v}: {e}')
+    with cf.ThreadPoolExecutor(max_workers=4) as ex: list(ex.map(guarded, variants))
+    if errs: raise Machinery('; '.join(errs)[:4000])
+    ctx.validate(all_paths)
+    thr_checked = len(thr_seen)
     ctx.notes.append(f'variants built and run: {[v for v in variants if v not in not_exec]}; not executable on this host: {not_exec}')
     for v in variants:
         if v != 'default' and builds.get(v):      # variant builds are large: drop them once used
@@ -572,7 +591,7 @@ def check_C14(ctx):
         rule='programs = (build variant, assembly file linked for a routine) pairs executed + the variants themselves; each variant (every x86-64 CPU directory mapping of configure.ac, '
              'pure C, fat, --enable-assert, both alloca modes) is built from the working tree, its thresholds/FFT_TAB are read by a probe and the MulDispatch / FFTParams models are checked '
              'with them, and a battery of mpn-level and mpz-level drivers (incl. the asm-only kernels by their defining identities) is executed and validated against the same MPIR.tla; '
-             'a disagreement would be a rejected event. quick: default + 5 option variants + 3 seeded CPU variants; thorough: all 19 CPU variants',
+             'a disagreement would be a rejected event. quick: default, pure C, fat and one seeded CPU directory with the mpn-level battery; thorough: all 5 option variants and all 19 CPU directories with the full battery',
         explanation='same specification for every kernel set / tuning table / build option',
         extra_cov=dict(programs=nprog, disagreements_checked=ctx.trace_stats['calls'], variants=len(variants), kernel_file_variant_pairs=len(pairs),
                        threshold_vectors_model_checked=thr_checked, not_executable=not_exec,
@@ -607,7 +626,7 @@ def check_C15(ctx):
         # auxiliary observation channel: the same workload unscheduled on a ThreadSanitizer build of library + harness
         bt = ctx.build('tsan')
         out_path = os.path.join(ctx.scratch, 'tsan.ndjson')
-        rc, out = sh([os.path.join(bt, 'verif-hx'), 'c15', 'thorough', str(ctx.seed), out_path, '0/1,free'], timeout=1500, env={'TSAN_OPTIONS': 'halt_on_error=0 exitcode=0'})
+        rc, out = sh([ctx.hx(bt), 'c15', 'thorough', str(ctx.seed), out_path, '0/1,free'], timeout=1500, env={'TSAN_OPTIONS': 'halt_on_error=0 exitcode=0'})
         tsan_reports = out.count('WARNING: ThreadSanitizer')
         if tsan_reports:
             rp = ctx.save_replay('tsan-report.txt', out[-30000:])
@@ -634,7 +653,9 @@ def check_C20(ctx):
         r = assume_model(ctx, 'CxxExpr', {'KIND': f'"{kind}"'}, name=f'CxxExpr-{kind}', timeout=3000)
         ctx.model_must_hold(r)
         p = os.path.join(ctx.scratch, f'trees-{kind}.out'); open(p, 'w').write(r['out']); outs[kind] = p
-        n = len(re.findall(r'<<"TREE"', r['out']))
+        n = len(re.findall(r'^<<"TREE", "%s", <<.*>>>>$' % kind, r['out'], re.M))
+        want = re.search(r'<<"CxxExpr", "%s", (\d+)>>' % kind, r['out'])
+        if not want or int(want.group(1)) != n: raise Machinery(f'CxxExpr-{kind}: {n} trees parsed from the TLC output, the model reports {want.group(1) if want else "?"}')
         for mm in ctx.models:
             if mm['name'] == f'CxxExpr-{kind}': mm['states'] = max(mm['states'], n); mm['transitions'] = mm['states']
     bx = ctx.build('cxx', harness=False)
